@@ -26,6 +26,9 @@ pub fn run_a_star(
     weight_factor: Option<Cost>,
     si: &SearchInstance,
 ) -> Result<SearchResult, SearchError> {
+    // the source must be a vertex of this graph; without a target nothing below would notice
+    si.directed_graph.get_vertex(&source)?;
+
     if target.map_or(false, |t| t == source) {
         return Ok(SearchResult::default());
     }
